@@ -539,6 +539,15 @@ def frames_cases(tier):
             if st.get('obs_md' if axis == 'observation' else 'samp_md', 'none') != 'none':
                 yield dict(st, fn='metadata_to_dataframe', axis=axis)
                 yield dict(st, fn='export', axis=axis)
+    for st in _precise_states():
+        for axis in AXES:
+            yield dict(st, fn='metadata_to_dataframe', axis=axis)
+            yield dict(st, fn='export', axis=axis)
+
+
+def _precise_states():
+    for A in ([[1., 0., 2.], [0., 3., 0.]], [[0., 1.], [2., 2.], [0., 5.]]):
+        yield {'A': A, 'layout': 'csr', 'zeros': 'nz', 'obs_md': 'precise', 'samp_md': 'precise'}
 
 
 def report_cases(tier):
@@ -551,6 +560,8 @@ def report_cases(tier):
 def cmd_cases(tier):
     q = tier == 'quick'
     k = 0
+    for st in _precise_states():
+        yield dict(st, cmd='export-metadata')
     for st in _states(tier):
         A = _dense_after(st)
         if st.get('hist') or np.any(np.abs(A[A != 0]) < 1e-300) or not np.any(A != 0):
